@@ -6,8 +6,8 @@ CONSTANTS
   MaxUid = 3
   MaxQueue = 3
   Kinds <- KMove
-  SeqSets <- SetsSmall
-  UidSets <- SetsSmall
+  SeqSets <- SetsStar
+  UidSets <- SetsStar
   UidForms <- Both
   AppendFlags <- NoFlagsOnly
   AppendBoxes <- OnlyA
